@@ -2,11 +2,12 @@ From Coq Require Import List NArith Bool.
 From V.C10 Require Import Model.
 From V.Mgr Require Import DialShape DialShapeProofs Model Caps Ledger LedgerInv.
 From V.Tcp Require Model Proofs Theorems.
+From V.C05 Require TcpCompose.
 Import ListNotations.
 Open Scope N_scope.
 From V.C05 Require Import Properties.
 Check (C05_ledger_invariant_step :
-  forall L m g e, LInv m g -> feas m g e -> LInv (fst (step L m e)) (gstep e (snd (step L m e)) g)).
+  forall L m g e, LInv L m g -> feas L m g e -> LInv L (fst (step L m e)) (gstep e (snd (step L m e)) g)).
 Check (C05_at_most_one_outcome :
   forall L es, feasible L init g0 es -> NoDup (terminals L init es)).
 Check (C05_no_silence :
@@ -23,6 +24,89 @@ Check (C05_pending_is_owed :
   forall L es, feasible L init g0 es ->
   let '(m, g) := lrun L init g0 es in
   forall p c, dial_record (state_of m p) = Some c -> owed g c).
+Check (C05_no_stuck :
+  forall L m g e s, Reach L m g -> feas L m g e -> ~ In (Stuck s) (snd (step L m e))).
+Check (C05_opening_set_owed :
+  forall L m g p c ts, Reach L m g -> state_of m p = Opening c ts ->
+  ts <> [] /\ forall u, In u ts -> installed L u = true /\ In (c, u) (g_open g)).
+Check (C05_open_failure_only_when_last :
+  forall L m g, Reach L m g ->
+  (forall c t pa, feas L m g (TrOpenFailure c t pa) ->
+     exists ts, state_of m pa = Opening c ts /\ In t ts /\
+       let '(m', os) := step L m (TrOpenFailure c t pa) in
+       let g' := gstep (TrOpenFailure c t pa) os g in
+       match remove_tr t ts with
+       | [] => os = [ProtoDialFailure pa; EvOpenFailure c (errs_of m c + 1)] /\
+               state_of m' pa = Disconnected None /\ ~ owed g' c /\ In c (g_done g')
+       | ts' => os = [] /\ state_of m' pa = Opening c ts' /\
+                (forall u, In (c, u) (g_open g') <-> In u ts') /\ errs_of m' c = errs_of m c + 1
+       end) /\
+  (forall e c n, In (EvOpenFailure c n) (snd (step L m e)) ->
+     exists t pa p d ts, e = TrOpenFailure c t pa /\ installed L t = true /\ lookup c (pending m) = Some p /\
+        state_of m p = Opening d ts /\ In t ts /\ remove_tr t ts = [] /\ n = errs_of m c + 1)).
+Check (C05_opened_cancels_rest :
+  forall L m g c t, Reach L m g -> feas L m g (TrOpened c t false) ->
+  exists p ts, lookup c (pending m) = Some p /\ state_of m p = Opening c ts /\ In t ts /\
+    let '(m', os) := step L m (TrOpened c t false) in
+    let g' := gstep (TrOpened c t false) os g in
+    os = map (CallCancel c) ts ++ [CallNegotiate c t] /\
+    state_of m' p = Dialing c /\ lookup c (pending m') = Some p /\
+    (forall u, ~ In (c, u) (g_open g')) /\ In c (g_neg g') /\
+    (forall u f, ~ feas L m' g' (TrOpened c u f)) /\
+    (forall u pa, ~ feas L m' g' (TrOpenFailure c u pa))).
+Check (C05_inbound_supersedes_all :
+  forall L m g p c t d ts, Reach L m g -> feas L m g (TrEstablished p c t true false) ->
+  state_of m p = Opening d ts -> limit_reached (max_in L) (ins m) = false ->
+  let '(m', os) := step L m (TrEstablished p c t true false) in
+  let g' := gstep (TrEstablished p c t true false) os g in
+  os = map (CallCancel d) ts ++ [CallAccept c t] /\
+  state_of m' p = Connected c None /\ lookup d (pending m') = None /\
+  (forall u, ~ In (d, u) (g_open g')) /\ ~ owed g' d /\ In d (g_super g')).
+Check (C05_kinds_installed :
+  forall L es, KInv L (fst (run L init es))).
+Check (C05_kinds_installed_step :
+  forall L m e, KInv L m -> KInv L (fst (step L m e))).
+Check (C05_uninstalled_transport_refuted :
+  exists L m p ts,
+    ~ KInv L m /\ choice_ok L m p ts = true /\
+    let '(m', os) := do_dial_peer L m p ts [] in
+    os = [Ret RET_OK] /\ state_of m' p = Opening (next_conn m) ts /\
+    lookup (next_conn m) (pending m') = Some p /\
+    (forall g, g_open (gstep (CmdDialPeer p ts []) os g) = g_open g /\
+               g_neg (gstep (CmdDialPeer p ts []) os g) = g_neg g)).
+Check (C05_handle_gate_sound :
+  forall L m g p ts clog, Reach L m g -> feas L m g (HDialPeer p ts [] clog) ->
+  let '(m', os) := step L m (HDialPeer p ts [] clog) in
+  let g' := gstep (HDialPeer p ts [] clog) os g in
+  (In (Ret RET_OK) os ->
+     (exists c, dial_record (state_of m p) = Some c /\ owed g c /\ m' = m /\ os = [Ret RET_OK]) \/
+     (limit_reached (max_out L) (outs m) = false /\ ts <> [] /\
+      os = Ret RET_OK :: map (CallOpen (next_conn m)) ts ++ [Logged RET_OK] /\
+      state_of m' p = Opening (next_conn m) ts /\
+      (forall u, In u ts -> In (next_conn m, u) (g_open g')) /\
+      lookup (next_conn m) (g_att g') = Some p) \/
+     (limit_reached (max_out L) (outs m) = true /\ m' = m /\ os = [Ret RET_OK; Logged RET_LIMIT] /\ g' = g)) /\
+  (forall code, code <> RET_OK -> In (Ret code) os -> m' = m /\ os = [Ret code])).
+Check (C05_handle_gate_agrees :
+  forall L m p ts fl,
+  match handle_gate m p with
+  | HQueue =>
+      (limit_reached (max_out L) (outs m) = true /\ do_dial_peer L m p ts fl = (m, [Ret RET_LIMIT])) \/
+      (limit_reached (max_out L) (outs m) = false /\ selects L m p = true /\
+       snd (do_dial_peer L m p ts fl) =
+         fst (open_calls L (next_conn m) ts fl) ++
+         [Ret (if snd (open_calls L (next_conn m) ts fl) then RET_OK else RET_TRANSPORT)])
+  | HInProgress =>
+      do_dial_peer L m p ts fl = (m, [Ret RET_OK]) \/ do_dial_peer L m p ts fl = (m, [Ret RET_LIMIT])
+  | HErr code =>
+      do_dial_peer L m p ts fl = (m, [Ret code]) \/ do_dial_peer L m p ts fl = (m, [Ret RET_LIMIT])
+  end).
+Check (C05_handle_dial_address :
+  forall L m a,
+  (existsb is_p2p a = false -> step L m (HDialAddr a false) = (m, [Ret RET_PEER_ID_MISSING])) /\
+  (existsb is_p2p a = true ->
+   step L m (HDialAddr a false) =
+     (fst (do_dial_shape L m a false), Ret RET_OK :: map demote (snd (do_dial_shape L m a false))))).
 Check (C05_dial_address_tcp_sound :
   forall listen a q, dial_shape listen a = SvTcp q ->
   exists h port ho, a = [h; Tcp port; P2p q] /\ is_host h = true /\
@@ -35,58 +119,70 @@ Check (C05_dial_address_refusals :
   forall listen a code, dial_shape listen a = SvRefuse code ->
   code = RET_PEER_ID_MISSING \/ code = RET_SELF' \/ code = RET_NOT_SUPPORTED).
 Check (C05_refused_address_unchanged :
-  forall L m a, (forall p, dial_shape LISTEN a <> SvTcp p) ->
-  exists code, do_dial_shape L m a = (m, [Ret code])).
+  forall L m a f,
+  (forall p, dial_shape LISTEN a = SvTcp p -> installed L TCP = false) ->
+  (forall p, dial_shape LISTEN a = SvWs p -> installed L WS = false) ->
+  exists code, do_dial_shape L m a f = (m, [Ret code])).
 Check (C05_dial_address_unfixed_refuted :
   exists a q q', dial_shape_unfixed [] a = SvTcp q /\
                  (exists ho port, parse TTcp a = Some (ho, port, Some q')) /\ q <> q').
 Check (C05_redial_attempted :
-  forall L m p,
-  state_of m p = Disconnected None -> mem p (known m) = true -> p <> LOCAL ->
+  forall L m p ts,
+  state_of m p = Disconnected None -> p <> LOCAL ->
   limit_reached (max_out L) (outs m) = false ->
-  let '(m', os) := do_dial_peer L m p false in
-  os = [CallOpen (next_conn m); Ret RET_OK] /\
-  state_of m' p = Opening (next_conn m) /\
+  KInv L m -> choice_ok L m p ts = true ->
+  let '(m', os) := do_dial_peer L m p ts [] in
+  ts <> [] /\
+  os = map (CallOpen (next_conn m)) ts ++ [Ret RET_OK] /\
+  state_of m' p = Opening (next_conn m) ts /\
   lookup (next_conn m) (pending m') = Some p /\
   next_conn m' = next_conn m + 1).
 Check (C05_redial_addr_attempted :
-  forall L m p,
-  state_of m p = Disconnected None ->
+  forall L m p t a,
+  state_of m p = Disconnected None -> installed L t = true ->
+  let '(m', os) := do_dial_addr L m p t a false in
+  os = [CallDial (next_conn m) t; Ret RET_OK] /\
+  state_of m' p = Dialing (next_conn m) /\
+  lookup (next_conn m) (pending m') = Some p).
+Check (C05_redial_addr_event :
+  forall L m p t,
+  state_of m p = Disconnected None -> installed L t = true ->
   limit_reached (max_out L) (outs m) = false ->
-  let '(m', os) := do_dial_addr L m p false in
-  os = [CallDial (next_conn m); Ret RET_OK] /\
+  let '(m', os) := step L m (CmdDialAddr p t false) in
+  os = [CallDial (next_conn m) t; Ret RET_OK] /\
   state_of m' p = Dialing (next_conn m) /\
   lookup (next_conn m) (pending m') = Some p).
 Check (C05_refused_unchanged :
-  forall L m p f, can_dial (state_of m p) <> GateOk -> fst (do_dial_peer L m p f) = m).
+  forall L m p ts fl, can_dial (state_of m p) <> GateOk -> fst (do_dial_peer L m p ts fl) = m).
 Check (C05_dial_failure_consumes :
-  forall m c pa,
-  In (EvDialFailure c pa) (snd (do_dial_failure m c pa)) ->
-  lookup c (pending (fst (do_dial_failure m c pa))) = None /\ lookup c (pending m) <> None).
+  forall m c t pa,
+  In (EvDialFailure c pa) (snd (do_dial_failure m c t pa)) ->
+  lookup c (pending (fst (do_dial_failure m c t pa))) = None /\ lookup c (pending m) <> None).
 Check (C05_open_failure_consumes :
-  forall m c pa,
-  In (EvOpenFailure c) (snd (do_open_failure m c pa)) ->
-  lookup c (pending (fst (do_open_failure m c pa))) = None /\ lookup c (pending m) <> None).
+  forall m c t pa n,
+  In (EvOpenFailure c n) (snd (do_open_failure m c t pa)) ->
+  lookup c (pending (fst (do_open_failure m c t pa))) = None /\ lookup c (pending m) <> None).
 Check (C05_dial_failure_clears :
-  forall m c p,
+  forall m c t p,
   lookup c (pending m) = Some p -> dial_record (state_of m p) = Some c ->
-  state_of m p <> Opening c ->
-  let '(m', os) := do_dial_failure m c p in
+  (forall ts, state_of m p <> Opening c ts) ->
+  let '(m', os) := do_dial_failure m c t p in
   os = [ProtoDialFailure p; EvDialFailure c p] /\ settled (state_of m' p)).
 Check (C05_limit_reject_settles :
-  forall L m1 p c f,
+  forall L m1 p c t f,
   limit_reached (max_out L) (outs m1) = true ->
-  dial_record (state_of m1 p) = Some c -> state_of m1 p <> Opening c ->
+  dial_record (state_of m1 p) = Some c -> (forall ts, state_of m1 p <> Opening c ts) ->
   existsb (fun kp : N * pstate => fst kp =? p) (peers m1) = true ->
-  settled (state_of (fst (do_established_checked L m1 p c false f)) p) /\
-  snd (do_established_checked L m1 p c false f) = [CallReject c]).
+  settled (state_of (fst (do_established_checked L m1 p c t false f)) p) /\
+  snd (do_established_checked L m1 p c t false f) = [CallReject c t]).
 Check (C05_settled_can_dial :
   forall s, settled s -> can_dial s = GateOk \/ can_dial s = GateConnected).
 Check (C05_stuck_only_on_inconsistent_ids :
   forall L m e s,
   In (Stuck s) (snd (step L m e)) ->
-  (exists c f, e = TrOpened c f /\ lookup c (pending m) = None) \/
-  (exists p c l f q, e = TrEstablished p c l f /\ lookup c (pending m) = Some q /\ q <> p)).
+  (exists c t f, e = TrOpened c t f /\ lookup c (pending m) = None) \/
+  (exists p c t l f q, e = TrEstablished p c t l f /\ lookup c (pending m) = Some q /\ q <> p) \/
+  (exists p c ts t, state_of m p = Opening c ts /\ In t ts /\ installed L t = false)).
 Check (C05_tcp_open_phase_owed :
   forall s g e o1 t o2,
   Tcp.Theorems.reachU s g -> snd (Tcp.Model.step s e) = o1 ++ Tcp.Model.OEv t :: o2 ->
@@ -177,3 +273,61 @@ Check (C05_tcp_outbound_ids_from_owner :
 Check (C05_tcp_caller_ok_needed :
   exists es, Tcp.Theorems.callers_ok Tcp.Model.init Tcp.Model.g0 es = false /\
              In [Tcp.Model.OMark (Tcp.Model.MNoHandle 0)] (snd (Tcp.Theorems.run Tcp.Model.init es))).
+Check (C05_sys_feasible :
+  forall L, (forall t, installed L t = true <-> t = TCP) ->
+  forall xs, TcpCompose.xfeasible L TcpCompose.sys0 xs ->
+  feasible L init g0 (TcpCompose.sys_trace L TcpCompose.sys0 xs) /\
+  (TcpCompose.s_m (TcpCompose.sys_run L TcpCompose.sys0 xs), TcpCompose.s_g (TcpCompose.sys_run L TcpCompose.sys0 xs)) =
+  lrun L init g0 (TcpCompose.sys_trace L TcpCompose.sys0 xs)).
+Check (C05_sys_step :
+  forall L, (forall t, installed L t = true <-> t = TCP) ->
+  forall st x, TcpCompose.Inv L st -> TcpCompose.xok L st x ->
+  feasible L (TcpCompose.s_m st) (TcpCompose.s_g st) (TcpCompose.sys_evs L st x) /\
+  TcpCompose.Inv L (TcpCompose.sys_step L st x)).
+Check (C05_sys_at_most_one_outcome :
+  forall L, (forall t, installed L t = true <-> t = TCP) ->
+  forall xs, TcpCompose.xfeasible L TcpCompose.sys0 xs ->
+  NoDup (terminals L init (TcpCompose.sys_trace L TcpCompose.sys0 xs))).
+Check (C05_sys_no_silence :
+  forall L, (forall t, installed L t = true <-> t = TCP) ->
+  forall xs, TcpCompose.xfeasible L TcpCompose.sys0 xs ->
+  let st := TcpCompose.sys_run L TcpCompose.sys0 xs in
+  quiescent (TcpCompose.s_m st) (TcpCompose.s_g st) ->
+  forall c p, lookup c (g_att (TcpCompose.s_g st)) = Some p ->
+    In c (g_done (TcpCompose.s_g st)) \/
+    (In c (g_super (TcpCompose.s_g st)) /\ In p (g_rep (TcpCompose.s_g st))) \/
+    In c (g_limrej (TcpCompose.s_g st))).
+Check (C05_sys_no_wedge :
+  forall L, (forall t, installed L t = true <-> t = TCP) ->
+  forall xs, TcpCompose.xfeasible L TcpCompose.sys0 xs ->
+  let st := TcpCompose.sys_run L TcpCompose.sys0 xs in
+  quiescent (TcpCompose.s_m st) (TcpCompose.s_g st) -> forall p, settled (state_of (TcpCompose.s_m st) p)).
+Check (C05_sys_quiescent :
+  forall L, (forall t, installed L t = true <-> t = TCP) ->
+  forall xs, TcpCompose.xfeasible L TcpCompose.sys0 xs ->
+  let st := TcpCompose.sys_run L TcpCompose.sys0 xs in
+  quiescent (TcpCompose.s_m st) (TcpCompose.s_g st) <->
+  Tcp.Model.g_open (TcpCompose.s_tg st) = [] /\ Tcp.Model.g_neg (TcpCompose.s_tg st) = [] /\
+  accepting (TcpCompose.s_m st) = []).
+Check (C05_sys_owed_is_pending :
+  forall L, (forall t, installed L t = true <-> t = TCP) ->
+  forall xs c, TcpCompose.xfeasible L TcpCompose.sys0 xs ->
+  let st := TcpCompose.sys_run L TcpCompose.sys0 xs in
+  owed (TcpCompose.s_g st) c ->
+  (exists f rem, Tcp.Model.lookup f (Tcp.Model.praw (TcpCompose.s_t st)) = Some c /\
+                 Tcp.Model.lookup f (Tcp.Model.attempts (TcpCompose.s_t st)) = Some rem /\
+                 ~ In f (Tcp.Model.aborted (TcpCompose.s_t st))) \/
+  (exists f k, Tcp.Model.lookup f (Tcp.Model.pconn (TcpCompose.s_t st)) = Some (c, k) /\ Tcp.Model.is_inb k = false)).
+Check (C05_sys_progress :
+  forall L, (forall t, installed L t = true <-> t = TCP) ->
+  forall xs c, TcpCompose.xfeasible L TcpCompose.sys0 xs ->
+  let st := TcpCompose.sys_run L TcpCompose.sys0 xs in
+  owed (TcpCompose.s_g st) c ->
+  exists n, Tcp.Model.polls n = true /\ TcpCompose.xfeasible L TcpCompose.sys0 (xs ++ [TcpCompose.XNet n]) /\
+            exists e, In e (TcpCompose.sys_evs L st (TcpCompose.XNet n)) /\ TcpCompose.answers c e).
+Check (C05_sys_no_stuck :
+  forall L, (forall t, installed L t = true <-> t = TCP) ->
+  forall xs x s, TcpCompose.xfeasible L TcpCompose.sys0 (xs ++ [x]) ->
+  forall e m g es2, TcpCompose.sys_evs L (TcpCompose.sys_run L TcpCompose.sys0 xs) x = e :: es2 ->
+  (m, g) = (TcpCompose.s_m (TcpCompose.sys_run L TcpCompose.sys0 xs), TcpCompose.s_g (TcpCompose.sys_run L TcpCompose.sys0 xs)) ->
+  ~ In (Stuck s) (snd (step L m e))).
